@@ -274,10 +274,13 @@ func genSearch(r *rng.R, w *world) searchSpec {
 		s.from, s.to = a, b
 	}
 	s.reverse = r.Bool()
-	if r.Chance(1, 2) {
+	if r.Chance(1, 2) && !w.big {
 		s.hist = uint64(rng.Pick(r, intervals[3:]))
 	}
 	na := r.Range(1, 3)
+	if w.big {
+		na = 1
+	}
 	for i := 0; i < na; i++ {
 		a := aggSpec{interval: rng.Pick(r, intervals)}
 		fns := []seq.AggFunc{seq.AggFuncCount, seq.AggFuncSum, seq.AggFuncMin, seq.AggFuncMax, seq.AggFuncAvg,
@@ -1009,7 +1012,7 @@ func runWorld(seed uint64, idx int, tier string, nsearch int, only func(search, 
 	}
 	r := rng.New(seed*7777 + uint64(idx)*31 + 5)
 	if w.big {
-		nsearch = 2
+		nsearch = 1
 	}
 	for si := 0; si < nsearch; si++ {
 		s := genSearch(r, w)
@@ -1034,7 +1037,7 @@ func main() {
 		fmt.Fprintln(os.Stderr, "need -out")
 		os.Exit(2)
 	}
-	w, err := casefile.New(*out, "C06", "From C06 Require Import Model CaseDefs.", 60)
+	w, err := casefile.New(*out, "C06", "From C06 Require Import Model CaseDefs.", 40)
 	if err != nil {
 		panic(err)
 	}
@@ -1056,9 +1059,9 @@ func main() {
 		}
 		return
 	}
-	nworlds, nsearch := 80, 6
+	nworlds, nsearch := 50, 5
 	if *tier == "thorough" {
-		nworlds, nsearch = 600, 10
+		nworlds, nsearch = 400, 8
 	}
 	results := make([]*result, nworlds)
 	var wg sync.WaitGroup
@@ -1117,9 +1120,9 @@ func doReplay(path string, flush func(*result)) {
 	wi, si := num("world"), num("search")
 	ti, hasT := in["tree_index"]
 	ai := num("agg_index")
-	nsearch := 6
+	nsearch := 5
 	if rp.Tier == "thorough" {
-		nsearch = 10
+		nsearch = 8
 	}
 	res := runWorld(seed, wi, rp.Tier, nsearch, func(s, t, a int) bool {
 		if s != si {
